@@ -46,3 +46,130 @@ def ad_mac(k, iv, d):
         return "ok " + hx(create_AES128(unhx(k), iv_of(iv)).mac(unhx(d)))
     except Exception as e:
         return err(e)
+
+
+from register_crypto_plugin.pyaes import blockfeeder
+
+
+@op("mh")
+def modehist(h):
+    """a history of calls on mode objects and feeders (fresh object store per line)"""
+    modes, feeders, outs = {}, {}, []
+    dead = set()
+    for step in h.split("|"):
+        t = step.split(",")
+        key = None
+        if t[0] in ("enc", "dec"):
+            key = ("m", int(t[1]))
+        elif t[0] == "feed":
+            key = ("f", int(t[1]))
+        if key in dead:
+            outs.append("err:Dead")
+            continue
+        try:
+            if t[0] == "new":
+                _, slot, kind, key, iv, ctr, seg = t
+                k = unhx(key)
+                ivb = None if iv == "none" else unhx(iv)
+                if kind == "ecb":
+                    m = pyaes_aes.AESModeOfOperationECB(k)
+                elif kind == "cbc":
+                    m = pyaes_aes.AESModeOfOperationCBC(k, ivb)
+                elif kind == "cfb":
+                    m = pyaes_aes.AESModeOfOperationCFB(k, ivb, int(seg))
+                elif kind == "ofb":
+                    m = pyaes_aes.AESModeOfOperationOFB(k, ivb)
+                else:
+                    m = pyaes_aes.AESModeOfOperationCTR(k, pyaes_aes.Counter(int(ctr)))
+                modes[int(slot)] = m
+                outs.append("-")
+            elif t[0] in ("enc", "dec"):
+                if int(t[1]) not in modes:
+                    outs.append("err:NoObject")
+                    continue
+                m = modes[int(t[1])]
+                r = (m.encrypt if t[0] == "enc" else m.decrypt)(unhx(t[2]))
+                outs.append(hx(bytes(r)))
+            elif t[0] == "fnew":
+                _, slot, mslot, d, pad = t
+                if int(mslot) not in modes:
+                    outs.append("err:NoObject")
+                    continue
+                cls = blockfeeder.Decrypter if d == "dec" else blockfeeder.Encrypter
+                feeders[int(slot)] = cls(modes[int(mslot)], padding=pad)
+                outs.append("-")
+            elif t[0] == "feed":
+                if int(t[1]) not in feeders:
+                    outs.append("err:NoObject")
+                    continue
+                f = feeders[int(t[1])]
+                r = f.feed() if t[2] == "final" else f.feed(unhx(t[2]))
+                outs.append(hx(bytes(r)))
+            else:
+                raise KeyError("bad step " + step)
+        except (KeyError,) as e:
+            if "bad step" in str(e):
+                raise
+            outs.append("err:" + type(e).__name__)
+        except Exception as e:
+            outs.append("err:" + type(e).__name__)
+            if key is not None:
+                dead.add(key)
+    return "ok " + "|".join(outs)
+
+
+import refaes
+
+
+@op("prop.aesblock")
+def prop_aesblock(k, b):
+    """bundled AES = independent FIPS-197 AES; decrypt inverts encrypt"""
+    key, blk = unhx(k), unhx(b)
+    a = pyaes_aes.AES(key)
+    c = bytes(a.encrypt(blk))
+    want = refaes.encrypt_block(key, blk)
+    if c != want:
+        return f"FAIL AES encrypt {c.hex()} != FIPS-197 {want.hex()}"
+    if bytes(a.decrypt(c)) != blk:
+        return "FAIL decrypt(encrypt(block)) != block"
+    d = bytes(a.decrypt(blk))
+    if d != refaes.decrypt_block(key, blk):
+        return f"FAIL AES decrypt {d.hex()} != FIPS-197 inverse cipher"
+    return "ok"
+
+
+@op("prop.adapter")
+def prop_adapter(k, iv, d):
+    """adapter = zero-padded CBC (given or zero IV); mac = last block; decrypt returns the padded data"""
+    key, ivb, data = unhx(k), (None if iv == "none" else unhx(iv)), unhx(d)
+    padded = refaes.zero_pad(data)
+    want = refaes.cbc_encrypt(key, ivb or bytes(16), padded)
+    c = create_AES128(key, ivb).encrypt(data)
+    if c != want:
+        return f"FAIL encrypt != AES-128-CBC of the zero-padded data ({c.hex()[:40]} vs {want.hex()[:40]})"
+    m = create_AES128(key, ivb).mac(data)
+    if m != want[-16:]:
+        return "FAIL mac is not the last ciphertext block"
+    p = create_AES128(key, ivb).decrypt(c)
+    if p != padded:
+        return f"FAIL decrypt returns {p.hex()[-40:]} not the zero-padded data {padded.hex()[-40:]}"
+    return "ok"
+
+
+@op("prop.adapterhist")
+def prop_adapterhist(k, iv, d, k2, d2):
+    """results never depend on earlier calls on the same or another object"""
+    key, ivb, data = unhx(k), (None if iv == "none" else unhx(iv)), unhx(d)
+    fresh = create_AES128(key, ivb).encrypt(data)
+    obj = create_AES128(key, ivb)
+    other = create_AES128(unhx(k2), None)
+    r1 = obj.encrypt(data)
+    other.encrypt(unhx(d2)); obj.mac(unhx(d2)); other.decrypt(other.encrypt(unhx(d2)))
+    r2 = obj.encrypt(data)
+    r3 = obj.decrypt(r2)
+    r4 = create_AES128(key, ivb).encrypt(data)
+    if not (fresh == r1 == r2 == r4):
+        return "FAIL encrypt result depends on earlier calls"
+    if r3 != refaes.zero_pad(data):
+        return "FAIL decrypt after other calls differs"
+    return "ok"
